@@ -425,13 +425,20 @@ def run(pid, tier, seed, model_ok, replay, nprog=None):
             cases += explore_maint(pid, tier, seed)
     # uncontrolled real-thread stress (no scheduler): same oracles over real-time tickets
     stress = []
-    if not replay and pid in ("C02", "C09", "C08", "C10", "C11"):
+    if not replay and pid in ("C02", "C09", "C08", "C10", "C11", "C07"):
         srng = random.Random(seed * 7 + 5)
         for i in range(12 if tier == "quick" else 200):
             cfgl = (f"cfg kind=stress cap={srng.choice(['none', 1, 2, 4])} ttl=none tti=none "
                     f"weigher=none hasher={srng.choice(['id', 'mod:2'])}")
             stress.append((f"stress{i}", [cfgl, f"RW threads={srng.choice([2, 3, 4])} keys={srng.choice([1, 2, 3])} "
                                                 f"ops={srng.choice([40, 80, 120])} seed={srng.randrange(10**6)}"]))
+        if pid in ("C02", "C07"):
+            # gets racing with updates of a key whose older value a completed invalidate_all has discarded
+            for i in range(6 if tier == "quick" else 60):
+                cfgl = f"cfg kind=stress cap=none ttl=none tti=none weigher=none hasher=id"
+                stress.append((f"stressa{i}", [cfgl, f"RW threads={srng.choice([3, 4])} keys={srng.choice([1, 1, 2])} "
+                                                     f"ops={srng.choice([2000, 4000])} writes=35 inval={srng.choice([5, 15])} "
+                                                     f"adv=600000000 seed={srng.randrange(10**6)}"]))
         if pid == "C09":
             # beyond the periodic-sync interval, write-heavy: the write queue must be drained by the
             # inserting threads themselves when it reaches its flush point
